@@ -106,6 +106,9 @@ where
 {
     fn zeroize(&mut self) {
         *self = Nonce::from_scalar(<<C::Group as Group>::Field>::zero());
+        // Prevent the store from being optimized away as a dead store (e.g.
+        // when called from a destructor, right before the storage is released).
+        core::hint::black_box(self);
     }
 }
 
